@@ -97,7 +97,7 @@ Definition read_oo (s : str) := read_word oo_unesc oo_stop 0 s.
 
 (* a rule header after variable expansion: targets up to the first unescaped colon, then prerequisites, then -
    after an unescaped bar - the order-only prerequisites *)
-Definition parse_rule_header (line : str) : option (list str * list str * list str) :=
+Definition parse_rule_words (line : str) : option (list str * list str * list str) :=
   match split_unesc c_colon 0 line with
   | Some (tpart, rest) =>
     let dp := match split_unesc c_pipe 0 rest with Some p => p | None => (rest, []) end in
@@ -107,6 +107,26 @@ Definition parse_rule_header (line : str) : option (list str * list str * list s
     | Some ts, Some ds, Some os => Some (ts, ds, os)
     | _, _, _ => None
     end
+  | None => None
+  end.
+
+(* Archive members.  GNU Make reads a word  lib(member)  - an opening parenthesis that is not the first character
+   and a closing one as the last - as a member of an archive (the automatic variable for the target is then the archive,
+   existence is looked up inside it), and a word  lib(m1  that is followed, in the same list, by a word ending in a
+   closing parenthesis as the start of an archive group  lib(m1 m2 ... mk)  (read.c parse_file_seq, ar.c ar_name).
+   No escaping switches this off, so such lists are outside what the Make format can represent: the reference reading
+   rejects them.  (Conservative for  lib()  , which ar_name does not take for a member.) *)
+Definition ar_open (w : str) : bool := match w with [] => false | _ :: r => mem_char 40 r end.
+Definition ends_rparen (w : str) : bool := match rev w with c :: _ => N.eqb c 41 | [] => false end.
+Fixpoint ar_free (ws : list str) : bool :=
+  match ws with
+  | [] => true
+  | w :: r => negb (ar_open w && (ends_rparen w || existsb ends_rparen r)) && ar_free r
+  end.
+
+Definition parse_rule_header (line : str) : option (list str * list str * list str) :=
+  match parse_rule_words line with
+  | Some (ts, ds, os) => if ar_free ts && ar_free ds && ar_free os then Some (ts, ds, os) else None
   | None => None
   end.
 
